@@ -43,9 +43,9 @@ theorem unusedOf_spec (m : Mgr) : ∀ rs : List Int, (∀ r ∈ rs, (m.ref[r.nat
     by_cases hcond : c = 0 ∧ r.natAbs ≠ 1
     · have : (decide (c = 0) && decide (r.natAbs ≠ 1)) = true := by simpa using hcond
       simp only [this, if_true]
-      refine ⟨_, rfl, nodup_pushNew _ _ hnd, ?_⟩
+      refine ⟨_, rfl, gc_nodup_pushNew _ _ hnd, ?_⟩
       intro k
-      rw [mem_pushNew, hmem]
+      rw [gc_mem_pushNew, hmem]
       constructor
       · rintro (⟨r', hr', h⟩ | h)
         · exact ⟨r', by simp [hr'], h⟩
@@ -146,13 +146,13 @@ theorem gcRoots_none_mem (m : Mgr) (k : Nat) : (∃ r ∈ gcRoots none m, r.natA
 /-! ### reachability -/
 
 /-- nodes reachable from a set `S` of node numbers through stored edges of `t` -/
-inductive Reach (t : Tbl) (S : Nat → Prop) : Nat → Prop
-  | root {u : Nat} : S u → Reach t S u
-  | lo {k : Nat} {n : Nd} : Reach t S k → t.node? k = some n → Reach t S n.lo.natAbs
-  | hi {k : Nat} {n : Nd} : Reach t S k → t.node? k = some n → Reach t S n.hi.natAbs
+inductive GcReach (t : Tbl) (S : Nat → Prop) : Nat → Prop
+  | root {u : Nat} : S u → GcReach t S u
+  | lo {k : Nat} {n : Nd} : GcReach t S k → t.node? k = some n → GcReach t S n.lo.natAbs
+  | hi {k : Nat} {n : Nd} : GcReach t S k → t.node? k = some n → GcReach t S n.hi.natAbs
 
 /-- the user holds a reference to `u` -/
-def Held (ext : Nat → Nat) (u : Nat) : Prop := 0 < ext u
+def GcHeld (ext : Nat → Nat) (u : Nat) : Prop := 0 < ext u
 
 theorem GcSub.ext {m0 m : Mgr} (h : GcSub m0 m) : Ext m.tbl m0.tbl :=
   ⟨by simp only [Tbl.nvars, h.vars], h.sub⟩
@@ -164,7 +164,7 @@ theorem den_sub {m0 m : Mgr} (h : GcSub m0 m) (hw : WF m.tbl) (u : Int) (hu : m.
 
 /-- everything reachable from a held node survives any sequence of collection steps -/
 theorem reach_survives {m0 m : Mgr} {ext : Nat → Nat} (hsub : GcSub m0 m) (hs : InvS m) (hr : RefExact m ext)
-    (h0 : InvS m0) {u : Nat} (hu : Reach m0.tbl (Held ext) u) : u = 1 ∨ (m.tbl.node? u).isSome := by
+    (h0 : InvS m0) {u : Nat} (hu : GcReach m0.tbl (GcHeld ext) u) : u = 1 ∨ (m.tbl.node? u).isSome := by
   induction hu with
   | root h => exact hr.mem_of_ext_pos h
   | @lo k n _ hn ih =>
@@ -187,7 +187,7 @@ theorem reach_survives {m0 m : Mgr} {ext : Nat → Nat} (hsub : GcSub m0 m) (hs 
 /-- if no node has count 0, every node is reachable from a held node -/
 theorem survivor_reachable {m0 m : Mgr} {ext : Nat → Nat} (hsub : GcSub m0 m) (hs : InvS m) (hr : RefExact m ext)
     (hnz : ∀ k : Nat, m.ref[k]? ≠ some 0) :
-    ∀ (l u : Nat) (n : Nd), m.tbl.node? u = some n → n.lvl = l → Reach m0.tbl (Held ext) u := by
+    ∀ (l u : Nat) (n : Nd), m.tbl.node? u = some n → n.lvl = l → GcReach m0.tbl (GcHeld ext) u := by
   intro l
   induction l using Nat.strongRecOn with
   | _ l ih =>
@@ -198,7 +198,7 @@ theorem survivor_reachable {m0 m : Mgr} {ext : Nat → Nat} (hsub : GcSub m0 m) 
     have hu1 : ¬ u = 1 := by omega
     simp only [hu1, if_false, Nat.add_zero] at hg
     by_cases he : 0 < ext u
-    · exact Reach.root he
+    · exact GcReach.root he
     · have hpos : 0 < indeg m.tbl u := by
         cases hz : indeg m.tbl u with
         | zero =>
@@ -218,12 +218,12 @@ theorem survivor_reachable {m0 m : Mgr} {ext : Nat → Nat} (hsub : GcSub m0 m) 
         rw [hlev _ hc] at hlt
         have := ih x.lvl (by omega) k x hk rfl
         rw [← hc]
-        exact Reach.lo this (hsub.sub _ _ hk)
+        exact GcReach.lo this (hsub.sub _ _ hk)
       · have hlt := hs.wf.hi_lt _ _ hk
         rw [hlev _ hc] at hlt
         have := ih x.lvl (by omega) k x hk rfl
         rw [← hc]
-        exact Reach.hi this (hsub.sub _ _ hk)
+        exact GcReach.hi this (hsub.sub _ _ hk)
 
 /-! ### the full collection -/
 
@@ -255,7 +255,7 @@ theorem GcRun.fullPost {m mf : Mgr} {ext : Nat → Nat} {work : List Nat} (hrun 
 /-- the remaining nodes are exactly the nodes reachable from a held node, each unchanged -/
 theorem GcFullPost.nodes {m m' : Mgr} {ext : Nat → Nat} (h : GcFullPost m ext m') (h0 : InvS m)
     (u : Nat) (n : Nd) :
-    m'.tbl.node? u = some n ↔ (m.tbl.node? u = some n ∧ Reach m.tbl (Held ext) u) := by
+    m'.tbl.node? u = some n ↔ (m.tbl.node? u = some n ∧ GcReach m.tbl (GcHeld ext) u) := by
   constructor
   · intro hn
     exact ⟨h.sub.sub u n hn, survivor_reachable h.sub h.inv.toInvS h.refExact h.noZero n.lvl u n hn rfl⟩
@@ -268,7 +268,7 @@ theorem GcFullPost.nodes {m m' : Mgr} {ext : Nat → Nat} (h : GcFullPost m ext 
 
 /-- `nodes m' = {1} ∪ reach m {u | ext u > 0}` -/
 theorem GcFullPost.mem_iff {m m' : Mgr} {ext : Nat → Nat} (h : GcFullPost m ext m') (h0 : InvS m) (u : Nat) :
-    (u = 1 ∨ (m'.tbl.node? u).isSome) ↔ (u = 1 ∨ Reach m.tbl (Held ext) u) := by
+    (u = 1 ∨ (m'.tbl.node? u).isSome) ↔ (u = 1 ∨ GcReach m.tbl (GcHeld ext) u) := by
   constructor
   · rintro (h1 | h1)
     · exact Or.inl h1
